@@ -353,3 +353,15 @@ def finish(prop, tier, level, coverage, violations, inconclusive, t0, assumption
         print("OK property=%s tier=%s: held on what was observed (%d evaluations, %d distinct non-trivial cells, %.1fs)" %
               (prop, tier, cov["evaluations"], cov["distinct_nontrivial"], time.time() - t0))
     return rc
+
+
+def find_binary(prefixes):
+    """newest cached binary whose file name starts with one of the prefixes (built earlier in this run)"""
+    best = None
+    for f in os.listdir(BIN):
+        for p in prefixes:
+            if f.startswith(p + "-"):
+                full = os.path.join(BIN, f)
+                if best is None or os.path.getmtime(full) > os.path.getmtime(best):
+                    best = full
+    return best
